@@ -157,13 +157,16 @@ const READ_FORMS: [&[(&str, &str)]; 6] = [
         ("copy-match", "{ let c = $P; (match c { Some(s) => num(s), None => 0, }) }"),
     ],
     &[
-        // (`K.n` directly is "Getting fields of constants not supported yet" in mir/lower.rs: a
-        // compiler limitation that belongs to C06, so a record constant is copied first)
         ("copy-field", "{ let c = $P; c.n }"),
         ("copy-field-argument", "{ let c = $P; num(c.s) }"),
         ("copy-field-method", "{ let c = $P; num(c.s.to_uppercase()) }"),
         ("copy-copy", "{ let c = $P; let e = c; num(e.s) + c.n - c.n }"),
         ("eq", "{ let c = $P; (if c == $P { c.n } else { 0 }) }"),
+        // a field of the constant itself (`path_value` with fields: the constant is copied
+        // into a temporary at the site and the field is read from the copy)
+        ("field", "$P.n"),
+        ("field-argument", "num($P.s)"),
+        ("field-method", "num($P.s.to_uppercase())"),
     ],
     &[
         ("match", "(match $P { A(s) => num(s), B => 0, })"),
